@@ -32,8 +32,13 @@ func (c *HTTPResponder) AddHeader(name string, value string) {
 
 func (c *HTTPResponder) SetHeaders(headers http.Header) {
 	for key, values := range headers {
-		for _, value := range values {
-			c.SetHeader(key, value)
+		// Replace the field with all of its values, in order (Set-Cookie, Link, Vary, ... may repeat).
+		for i, value := range values {
+			if i == 0 {
+				c.SetHeader(key, value)
+			} else {
+				c.AddHeader(key, value)
+			}
 		}
 	}
 }
